@@ -312,7 +312,7 @@ def run(chk):
         chk.add_tlc(f"MC_Context exhaustive: rounds options of {nm[0]} x category override", r)
     # 2. simulation + replay
     names = list(T)
-    nb = 1200 if quick else 12000
+    nb = 500 if quick else 12000
     c = consts_for(T, names, True, MaxOps=10, MaxStore=3)
     r = tlc.run_instance("MC_Context", c, name="C04_sim", invariants=INVS, action_constraint="Emit", next="SimNext",
                          simulate=f"num={nb}", depth=10, seed=chk.seed + 7, workers=1, coverage=False, timeout=3000)
